@@ -715,7 +715,7 @@ class DeserializationMethodVisitor(
                     conv_alternatives[0].converter, conv_alternatives[0].method
                 )
 
-        return self._factory(factory, validation=not dynamic)
+        return self._factory(factory)
 
     def visit_conversion(
         self,
